@@ -321,8 +321,9 @@ theorem C04_redelivered (st : St) (s : String) (mx mb : Nat) (strict : Bool) (wa
 theorem C04_pull_is_one_transaction :
     (∀ x ∈ Extracted.pullTxShape, x = "with-apply") ∧ Extracted.pullTxShape ≠ [] := by
   refine ⟨?_, ?_⟩
-  · intro x hx; simp [Extracted.pullTxShape] at hx; exact hx
-  · simp [Extracted.pullTxShape]
+  · have h : Extracted.pullTxShape.all (· == "with-apply") = true := by decide
+    intro x hx; simpa using List.all_eq_true.mp h x hx
+  · decide
 
 /-! ### a waiting pull and the retry deadline
 
